@@ -7,6 +7,12 @@ PY = "/venv/bin/python"
 
 # property id -> (design section, technique, level text, level note)
 BUILT = {
+    "C02": ("§4.2", "explicit-state search of the C01 product graph; on every selected transition every catalogue "
+            "operator is applied at every site of the last block (deviation bound 1) and run on the real pipeline",
+            "All (state, block, operator, site) combinations within the bounds are executed; the operator's code must "
+            "appear at Error level on the edited line with status Error; one site per operator also through main().",
+            "Trusts mc/model/catalogue.py (each operator breaks the Norm sentence it names). Quick edits the BFS-tree "
+            "transitions plus the first transition of every (block, scope) pair; thorough every (block, state) pair."),
     "C07": ("§4.7", "explicit-state search of the C01 product graph observing every Context.pop_tokens/primary match "
             "(test-side wrappers); exhaustive insertion of unrecognisable fragments at every model-state representative",
             "On every transition of the product graph the pops must tile the token list, start at column 1, end at "
